@@ -5,6 +5,7 @@ NOTES = ('Static analysis only: every check parses /repo/bct with ast on each ru
 ENGINES = [
     {'name': 'core', 'path': 'sa/core', 'serves_properties': [], 'kind_free_text': 'ast loader, import/call resolution, statement CFG with dominators, report/evidence'},
     {'name': 'callgraph', 'path': 'sa/engines/callgraph.py', 'serves_properties': ['C05', 'C13'], 'kind_free_text': 'whole-package call graph over resolved callees'},
+    {'name': 'swapkernel', 'path': 'sa/engines/swapkernel.py', 'serves_properties': ['C01', 'C06', 'C11'], 'kind_free_text': 'finite-state abstract interpretation of rewiring attempts'},
     {'name': 'alias', 'path': 'sa/engines/alias.py', 'serves_properties': ['C13', 'C17', 'C01'], 'kind_free_text': 'may-alias/may-mutate abstract interpretation with interprocedural summaries'},
     {'name': 'pattern+canon', 'path': 'sa/core/pattern.py', 'serves_properties': ['C17'], 'kind_free_text': 'AST templates with metavariables; sympy normal forms (term rewriting, no evaluation)'},
     {'name': 'selftest', 'path': 'sa/selftest.py', 'serves_properties': [], 'kind_free_text': 'thorough tier: breaking and neutral source variants in a temp copy; blind/noisy rule => exit 2'},
@@ -14,6 +15,37 @@ PENDING = 'check not built yet in this session; see DESIGN.md section 5 for the 
 NOT_APPLICABLE = {('C%02d' % i): PENDING for i in range(1, 21)}
 
 CHECKS = {
+    'C01': {
+        'engine': 'swapkernel',
+        'technique': 'typestate abstract interpretation of one rewiring attempt (symbolic cells / edge-list slots / inequality facts) on every path; def-use and dominance obligations',
+        'text': 'For all 10 rewiring kernels, on every path through one attempt: rows/columns (nodes) lose and gain equally many entries, written '
+                'values are a permutation of removed ones, every created cell was tested empty, all endpoints provably distinct, writes mirrored '
+                '(undirected), weights stay in their row (directed), edge list names exactly the new edges, rejecting paths change nothing, counter '
+                'counts accepts. Induction base (edge list = support of the final working copy), copy-before-write, returned object, and the '
+                'inverse-permutation undo of the latticisers are separate obligations. Holds for every input in the domain and every random trajectory.',
+        'note': 'Assumes the documented domain (empty diagonal, symmetric input for _und). Not decided: termination, uniformity of sampling, behaviour '
+                'for inputs with self-connections. randomizer_bin_und: mask/restore logic is checked as paired statements, not by value.',
+    },
+    'C06': {
+        'engine': 'swapkernel + sign absint',
+        'technique': 'typestate analysis with sign-class union-find for the signed kernels; sign abstract interpretation (NEG/ZERO/POS lattice with mask facts) of the weight-dealing loop; who-may-call; pattern match of the correlation definitions',
+        'text': 'Signed swap kernels: every row and column keeps its multiset of sign classes, the four values are permuted exactly, mirrored / row-local. '
+                'Null models: on the branch for sign s the value written has sign s and the target cells come from the rewired support of sign s; '
+                'each dealt index is consumed exactly once (slice of a permutation, deleted after the round); _dir routines call only _dir rewirers; '
+                'the four returned correlations match their definition and in/out order.',
+        'note': 'Not decided: how high the strength correlations are, the P re-weighting heuristic (it only influences which weight lands where). '
+                'Counting argument |cells| == |weights| relies on the sign-degree preservation shown for the rewirers.',
+    },
+    'C11': {
+        'engine': 'swapkernel + obligations',
+        'technique': 'CFG dominance of precondition raises; flag-gating typestate; structural exits of the reachability loop; lattice guard compared (sympy normal form) with removed/created cost derived from the abstract swap; mask-tested facts on created cells',
+        'text': 'Preconditions of the undirected _connected routines dominate every draw and write; all matrix writes of the four _connected kernels are '
+                'gated by the veto flag, reset per attempt, cleared exactly on the stalled-frontier exit, the search loop has two exits and is skipped '
+                'only under the stated shortcut; the lattice guard equals old-cost >= new-cost for the cells the swap touches; cells created by '
+                'randomize_graph_partial_und were tested zero in the mask.',
+        'note': 'That the frontier expansion decides connectivity is a graph lemma not mechanised here: "output connected" is NOT claimed, only that '
+                'every accepted swap passed the test and the test cannot be bypassed. D (and the mask) are assumed symmetric for undirected routines.',
+    },
     'C13': {
         'engine': 'alias',
         'technique': 'interprocedural may-alias / may-mutate dataflow over statement CFGs (ast), flow-sensitive, copy-flag path pruning',
